@@ -23,7 +23,8 @@ Quotes == {"valid", "forged", "unparsable", "empty"}
 Informs == {"bin", "proto", "textproto", "bogus"}
 Roots == {"flagGood", "configGood", "inlineGood", "flagWrong", "configWrong", "flagMissingFile", "noneGiven", "flagOverridesWrongConfig", "flagWrongOverridesGoodConfig"}
 \*   the quote is rooted in a generated PKI: it verifies only under a bundle listing that PKI's root
-Nets == {"off", "unreachable", "honest", "serverError", "tampered"}
+Nets == {"off", "unreachable", "honest", "serverError", "tampered", "tcbFails", "qeFails", "pckCrlFails", "rootCrlFails"}
+\*   xFails: only that one download gets an HTTP 503, the others are served honestly (the CRL ones need revocation checking on)
 \*   off: collateral not requested;  unreachable: requested, nothing answers;  honest / serverError (HTTP 503) / tampered (bad signature)
 Crl == {"off", "on", "onWithoutCollateral"}
 
@@ -50,7 +51,8 @@ VerifyFault(c) == \/ c.quote \in {"forged", "empty"}
                   \/ (c.quote = "unparsable" /\ c.inform = "bin")          \* README: quote parsing errors are verification failures (the tool says 1; both accepted)
                   \/ ~EffRootsOk(c)
                   \/ (c.net = "tampered")
-NetworkFault(c) == c.net \in {"unreachable", "serverError"}
+NetworkFault(c) == \/ c.net \in {"unreachable", "serverError", "tcbFails", "qeFails"}
+                   \/ (c.net \in {"pckCrlFails", "rootCrlFails"} /\ c.crl = "on")
 PolicyFault(c) == Effective(c) = "mismatch"
 
 \* C19: the exit codes a run may end with.  Without faults exactly 0; with one fault exactly its code; with several, the code of any fault
@@ -80,7 +82,7 @@ CONSTANT Budget   \* 1: single deviations from Base; 2: also pairs (field deviat
 FieldDevs == {[Base EXCEPT !.field = f, !.cfg = a, !.flag = b] : f \in Fields, a \in Vals, b \in Vals}
 OtherDevs == {[Base EXCEPT !.shape = x] : x \in Shapes} \cup {[Base EXCEPT !.fmt = x] : x \in Formats} \cup {[Base EXCEPT !.quote = x] : x \in Quotes}
              \cup {[Base EXCEPT !.inform = x] : x \in Informs} \cup {[Base EXCEPT !.roots = x] : x \in Roots}
-             \cup {[Base EXCEPT !.net = x] : x \in Nets} \cup {[Base EXCEPT !.crl = x, !.net = (IF x = "on" THEN "honest" ELSE "off")] : x \in Crl}
+             \cup {[Base EXCEPT !.net = x] : x \in Nets} \cup {[Base EXCEPT !.net = x, !.crl = "on"] : x \in {"pckCrlFails", "rootCrlFails", "tcbFails"}} \cup {[Base EXCEPT !.crl = x, !.net = (IF x = "on" THEN "honest" ELSE "off")] : x \in Crl}
              \cup {[Base EXCEPT !.quote = q, !.inform = i] : q \in Quotes, i \in {"bin", "proto", "textproto"}}
 Merge2(a, b) == [k \in DOMAIN Base |-> IF b[k] # Base[k] THEN b[k] ELSE a[k]]
 Cases == FieldDevs \cup OtherDevs \cup (IF Budget >= 2 THEN {Merge2(a, b) : a \in {x \in FieldDevs : x.cfg # "absent" \/ x.flag # "absent"}, b \in OtherDevs} ELSE {})
